@@ -314,6 +314,7 @@ func (f *stubFetcher) GetTx(ctx context.Context, txid bitcoin.Hash32) (*wire.Msg
 type stepNode struct {
 	ctx       context.Context
 	blockCtx  context.Context // optional role-tagged context for ProcessBlock (harness-owned schedules)
+	delivered int             // peer messages handed to the node so far (budget, see deliverNext)
 	cfg       config.Config
 	store     *verifkit.MemStore
 	node      *Node
@@ -477,6 +478,13 @@ func (sn *stepNode) noteDelivered(pm peerMsg) {
 // deliverNext delivers the i-th pending peer message (0 = FIFO head). Returns false if none.
 func (sn *stepNode) deliverNext(i int) bool {
 	if len(sn.peer.toNode) == 0 {
+		return false
+	}
+	// A node that is not in sync and cannot make progress polls for headers with every message it
+	// handles, and the fake peer answers every poll: "deliver while something is pending" would then
+	// never end. No scenario needs anywhere near this many deliveries.
+	sn.delivered++
+	if sn.delivered > 150000 {
 		return false
 	}
 	if i >= len(sn.peer.toNode) {
